@@ -547,6 +547,22 @@ example : ([[0x0d, 0xa2, 0x07, 0x08], [0x20, 0x5e], [0x9e, 0x2b, 0xb6, 0x0a]] : 
     ∧ Decodable Gen.Layouts.interbus ⟨162, 7, 8, 0x20, [0x5e]⟩ ∧ Valid Gen.Layouts.interbus ⟨7, 161 + ((0 + 1) &&& 1), 4, 0x20, []⟩ := by
   refine ⟨by decide +kernel, ⟨?_, ?_, ?_, ?_⟩, ⟨?_, ?_, ?_, ?_, ?_⟩⟩ <;> decide
 
+/-- hypothesis of `bad_crc_rejected`: content with a non-zero residue exists -/
+example : crcOf Gen.Layouts.interbus.crcPoly [1, 2, 3] ≠ 0 := by decide +kernel
+
+/-- the `ok` branch of `request_response` is reached after a timeout, a damaged telegram and a mis-addressed one,
+with the good reply cut into three transfers -/
+example :
+    (requestResponse Gen.Layouts.interbus 0 7 4 0x20 []
+      { script := [.timeout, .data [0x0d, 0xa2, 0x07, 0x08, 0x20, 0x5e, 0x9e, 0x2b, 0xb7, 0x0a],
+                   .data [0x0d, 0xa1, 0x07, 0x08, 0x20, 0x78, 0xde, 0x9f, 0x0a],
+                   .data [0x0d, 0xa2, 0x07, 0x08], .data [0x20, 0x5e], .data [0x9e, 0x2b, 0xb6, 0x0a]] }).1.toOption
+      = some ⟨162, 7, 8, 0x20, [0x5e]⟩ := by decide +kernel
+
+/-- … and the error branch: eleven unanswered reads, then the exception -/
+example : (requestResponse Gen.Layouts.interbus 1 7 4 0x20 [] {}).1.toOption = none
+    ∧ (requestResponse Gen.Layouts.interbus 1 7 4 0x20 [] {}).2.2.reads = 11 := by decide +kernel
+
 /-! ### the same, read for the constants of the current source -/
 
 theorem gen_interbus_roundtrip (m : Msg) (hv : Valid Gen.Layouts.interbus m) :
@@ -773,6 +789,11 @@ example : pack [⟨2, false⟩, ⟨4, true⟩] [1, -5] = [1, 0, 0xfb, 0xff, 0xff
 example : writeData (genProto 0x50 1) 0x0453 [1, 0, 0xfb, 0xff, 0xff, 0xff]
     = [0x53, 0x04, 0x06, 0x00, 0xd0, 0x01, 1, 0, 0xfb, 0xff, 0xff, 0xff] := by decide
 example : Gen.Layouts.aptPackets.length > 0 ∧ Gen.Layouts.aptPackets.any (fun l => !l.headerOnly) = true := by decide
+
+/-- hypothesis of `ask_ok_id` / `gen_apt_ask_checks_id`: `ask` does return values on a well-formed stream -/
+example : (ask (genProto 0x50 1) ⟨"MOT_MOVE_ABSOLUTE", 0x0453, false, 6,
+        [⟨"chan_ident", 0, ⟨2, false⟩, 1, false⟩, ⟨"absolute_distance", 2, ⟨4, true⟩, 1, false⟩]⟩
+      [0x53, 0x04, 6, 0, 0x81, 0x50, 1, 0, 0xfb, 0xff, 0xff, 0xff, 0xaa]).1.toOption = some [1, -5] := by decide +kernel
 
 end Apt
 
